@@ -793,7 +793,10 @@ impl Monitors {
                             v.push(f(
                                 "C04",
                                 "ack-honesty",
-                                "ack/acknowledged-data-lost-to-a-reader-error",
+                                // (a peer that ignored the advertised window: what it sent beyond it was stored and
+                                // acknowledged all the same, and is lost when the connection closes in good order
+                                // before the reader has made room - known finding F32)
+                                if w.peer_exceeded_window && matches!(&w.done, Some(Ok(()))) { "ack/data-beyond-the-window-acknowledged-then-discarded-at-close" } else { "ack/acknowledged-data-lost-to-a-reader-error" },
                                 format!("poll_read failed with '{e}' after {} bytes although the endpoint had acknowledged {} bytes of the peer's stream and the connection was not aborted ({:?})", w.read, acked_bytes, w.done),
                             ));
                             v.push(f(
